@@ -269,6 +269,9 @@ func (la *lexAnalysis) run(fn *ssa.Function, entry lexStateSet, argDesc []string
 					m[phi.Name()] = cst.Value.String()
 				} else if m[e.Name()] != "" {
 					m[phi.Name()] = m[e.Name()]
+					if _, isCall := e.(*ssa.Call); isCall {
+						delete(m, e.Name()) // the split outcome of a match-like call lives on in the flag only
+					}
 				} else {
 					delete(m, phi.Name())
 				}
@@ -658,7 +661,50 @@ func (la *lexAnalysis) run(fn *ssa.Function, entry lexStateSet, argDesc []string
 			}
 		}
 		for _, s := range b.Succs {
-			add(s, out)
+			// the pending result of a match-like call merged into a tracked boolean flag of the successor (the SSA form of
+			// `case a && b && i.match(x):` is a phi of false, false and the call): pass the two outcomes on separately, tagged
+			// with the value the flag takes, so that the branch on the flag lets through only the matching one
+			split := false
+			for ps := range st {
+				if !strings.HasPrefix(ps, "P:") || len(st) != 1 {
+					continue
+				}
+				o := strings.TrimPrefix(ps, "P:")
+				for mv, mo := range origins {
+					mi, isInstr := mv.(ssa.Instruction)
+					if mo != o || !isInstr || mi.Block() != b {
+						continue
+					}
+					feeds := false
+					for _, ins := range s.Instrs {
+						phi, ok := ins.(*ssa.Phi)
+						if !ok {
+							break
+						}
+						for k, pr := range s.Preds {
+							if pr == b && flagPhis[phi] && phi.Edges[k] == mv {
+								feeds = true
+							}
+						}
+					}
+					if !feeds || split {
+						continue
+					}
+					saved := curTag
+					m := parseTag(saved)
+					m[mv.Name()] = "true"
+					curTag = fmtTag(m)
+					add(s, lexStateSet{"B:" + o: true})
+					m[mv.Name()] = "false"
+					curTag = fmtTag(m)
+					add(s, lexStateSet{"D": true})
+					curTag = saved
+					split = true
+				}
+			}
+			if !split {
+				add(s, out)
+			}
 		}
 	}
 	return sum
